@@ -85,6 +85,17 @@ def _fn_roles(bodies):
     wc_path = wc[0] if len(wc) == 1 else next((i for i, b in bodies.items() if (b.get("name") or _last(i)) == "wrap_claims" and is_m2v(b)), None)
     if wc_path and wc_path in bodies:
         role("wrap_value", common([bodies[wc_path]], is_v2v))
+    # PasetoBuilder::new (private): what Default::default starts from
+    pbd = [b for b in bodies.values() if b.get("name") == "default" and (b.get("impl_self") or "").startswith("crate::prelude::paseto_builder::PasetoBuilder<") and "Default" in (b.get("impl_trait") or "")]
+    if not any((b.get("name") == "new" and (b.get("impl_self") or "").startswith("crate::prelude::paseto_builder::PasetoBuilder<")) for b in bodies.values()):
+        c_ = common(pbd, lambda b: re.search(r"^fn\(\) -> crate::prelude::paseto_builder::PasetoBuilder<", sig(b)) is not None)
+        if len(c_) == 1:
+            roles.append(("new", c_[0]))
+    # PreAuthenticationEncoding::{parse, le64}: by signature, wherever they live
+    if "le64" not in have:
+        c_ = [i for i, b in bodies.items() if re.search(r"^fn\(u64\) -> alloc::vec::Vec<u8>$", sig(b)) and "pre_authentication_encoding" in i and _non_pub(b) is not None]
+        if len(c_) == 1:
+            roles.append(("le64", c_[0]))
     cc = [b for b in bodies.values() if b.get("name") == "try_from" and (b.get("impl_self") or "").startswith("crate::generic::claims::custom_claim::CustomClaim<")]
     role("check_if_reserved_claim_key", common(cc, lambda b: re.search(r"fn\(&'\w+ str\) -> core::result::Result<\(\), crate::generic::claims::error::PasetoClaimError>$", sig(b)) is not None))
     return roles
